@@ -41,3 +41,25 @@ package cluster
 //@   ensures [small-is-gossiped] called("OversizedMessage") && !ret("OversizedMessage") ==> called("dynamic:field:send")
 //@   ensures [oversized-queued-or-counted] called("OversizedMessage") && ret("OversizedMessage") ==> (ret("select") == 0 || called("Counter).Inc"))
 //@   noeffect dynamic:field:send
+
+// ---- C19: to whom an oversized update is sent reliably: every member memberlist reports, except this instance
+// (the first entry carrying its name), in memberlist's order. memberlist itself (Members, LocalNode, Node.String =
+// the node's name) is outside the verified subset: its answers are named by uninterpreted functions.
+//@ uf mlMember(int) *memberlist.Node
+//@ uf nMembers() int
+//@ uf localNode() *memberlist.Node
+//@ func (*Peer).AddState$2
+//@   props C19
+//@   requires p != nil && deref(p) != nil
+//@   after call Memberlist).Members assume len(res0) == nMembers() && (forall i int :: 0 <= i && i < len(res0) ==> res0[i] == mlMember(i) && mlMember(i) != nil)
+//@   after call Node).String assume res0 == arg0.Name
+//@   after call Memberlist).LocalNode assume res0 == localNode() && res0 != nil
+//@   ensures [only-self-removed] let at = rangeindex1 + 1 in
+//@             (forall j int :: 0 <= j && j < at ==> result[j] == mlMember(j) && mlMember(j).Name != localNode().Name)
+//@          && (forall j int :: at <= j && j < len(result) ==> result[j] == mlMember(j + 1))
+//@          && (at < nMembers() ==> mlMember(at).Name == localNode().Name && len(result) == nMembers() - 1)
+//@          && (at >= nMembers() ==> len(result) == nMembers())
+//@   loop 1 invariant rangeindex < nMembers() && len(nodes) == nMembers()
+//@   loop 1 invariant forall i int :: 0 <= i && i < nMembers() ==> nodes[i] == mlMember(i)
+//@   loop 1 invariant forall j int :: 0 <= j && j <= rangeindex ==> mlMember(j).Name != localNode().Name
+//@   noeffect Memberlist).Members Node).String Memberlist).LocalNode
